@@ -53,7 +53,7 @@ def request(info, r, fq):
             break
     out["scale"] = 1.5
     out["background"] = 0.125
-    pd = [p.name for p in P.call_parameters if p.name in P.pd_1d]
+    pd = [p.name for p in P.call_parameters if p.polydisperse and p.type not in ("orientation", "magnetic")]
     cutoff = 0.0
     if r in ("pd", "pdc", "mode", "pd2", "mag") and pd:
         out[pd[0] + "_pd"] = 0.125
